@@ -110,6 +110,13 @@ def handle_events(sol_tuple, events, consts, direction, is_terminal, attributes)
         verbose=False
     )
 
+    # an event belongs to this step only if its function changes sign (or vanishes) between the two ends of the step: the root finder
+    # also certifies an end point at which a shallow function is merely small, and the direction samples below reach slightly beyond the
+    # step, so without this test the neighbouring step reported the same crossing a second time, at its end point
+    g_prev = D.ar_numpy.stack([ev_f[idx](t_prev) for idx in range(len(roots))])
+    g_next = D.ar_numpy.stack([ev_f[idx](t_next) for idx in range(len(roots))])
+    success = success & (((g_prev <= 0) & (g_next >= 0)) | ((g_prev >= 0) & (g_next <= 0)))
+
     g = [ev_f[idx](t_root - (t_next - t_prev) * D.epsilon(roots[0].dtype) ** 0.5) for idx, t_root in enumerate(roots)]
     g_cen = [ev_f[idx](t_root) for idx, t_root in enumerate(roots)]
     g_new = [ev_f[idx](t_root + (t_next - t_prev) * D.epsilon(roots[0].dtype) ** 0.5) for idx, t_root in enumerate(roots)]
